@@ -8,7 +8,7 @@ from . import graphs as gr
 from . import analytic_catalog as cat
 
 RATES = [(0.3, 0.7), (1.1, 1.0), (0.0, 0.7), (0.3, 0.0), (0.0, 0.0)]
-GRIDS = [(0, 5, 11), (1.5, 4, 6), (-2, 3, 2)]
+GRIDS = [(0, 5, 11), (1.5, 4, 6), (-2, 3, 2), (1.5, 4, 1)]
 DGRIDS = [(0, 5, 0), (2, 6, 0)]
 
 
